@@ -3,7 +3,7 @@
    accumulator whose peak count differs from count_ones(leaf_count) is rejected).  sp_verify_v0 is the code
    before the repair and appears only in the HISTORICAL lemmas at the end. *)
 From Coq Require Import ZArith List Bool.
-From TF Require Import Word MmrIdxLocal Mmr MmrSpec MmrTerm MmrProofs.
+From TF Require Import Word MmrIdxLocal Mmr MmrSpec MmrTerm MmrProofs MmrSmall.
 Import ListNotations.
 Open Scope Z_scope.
 
@@ -32,6 +32,23 @@ Example C12_total_example :
   sp_verify_v1 term Node term_eqb Dflt [] (1, [Atom 0; Atom 5]) (1, [Atom 0]) = Some false /\
   sp_verify_v1 term Node term_eqb Dflt [] (1, []) (1, [Atom 0]) = Some false.
 Proof. exact sp_verify_v1_rejects_both. Qed.
+
+(* complete, FULL statement: the generated proof verifies between the old accumulator and the one obtained
+   by the appends (open: new_from_batch_append is node-index bookkeeping, see C16) *)
+Definition C12_complete_full : Prop :=
+  forall (D : Type) (H : D -> D -> D) (deq : D -> D -> bool) (dflt : D),
+    (forall x, deq x x = true) ->
+    forall (ls new_leafs : list D), zlength ls + zlength new_leafs < 2 ^ 63 ->
+    exists sp, sp_new_from_batch_append D H dflt (zlength ls, peaks_spec D H dflt ls) new_leafs = Some sp /\
+               sp_verify_v1 D H deq dflt sp (zlength ls, peaks_spec D H dflt ls)
+                            (zlength (ls ++ new_leafs), peaks_spec D H dflt (ls ++ new_leafs)) = Some true.
+
+(* PARTIAL: complete for every (old leaf count o, a appended leafs) with o + a <= 64, on the free hash with
+   pairwise distinct leafs (complete_case in proofs/MmrSmall.v: build the old accumulator from o leafs,
+   generate the proof for a more, append them, verify = Some true); by vm_compute *)
+Theorem C12_complete_small_partial : forall o a : nat, (o + a <= 64)%nat -> complete_case o a = true.
+Proof. exact sp_complete_small. Qed.
+Print Assumptions C12_complete_small_partial.
 
 (* ---------------------------------------------------------------------------------------------------
    HISTORICAL (code before /repo dfe5f25): `total` was refuted both ways.  An old accumulator with more
